@@ -10,8 +10,10 @@ from seed_needs import NEEDS  # noqa: E402
 
 # baseline-flaky tests (BASELINE.json) + hypothesis DeadlineExceeded of the bit-function tests under `-n 14`
 # (they pass when run alone, also with the patches that touch functions.py: C27A, C36A, C36B -- checked)
+# (every patch that touches functions.py -- C27A, C36A, C36B, C14D, C27C, C36C, C36D -- passes test_utils.py and
+# test_functions.py when those files are run alone)
 FLAKY = ("test_stack.py::TestStack::test_randomized", "TestContentAddressableMemory::test_random",
-         "TestBitManipulationFunctions::test_count_leading_zeros", "TestBitManipulationFunctions::test_count_trailing_zeros")
+         "test_utils.py::TestBitManipulationFunctions::")
 
 
 def process(seedout, seedres, lmap):
